@@ -7,13 +7,17 @@ import (
 	"context"
 	"database/sql"
 	"fmt"
+	"net/http"
 
 	"github.com/uptrace/bun"
 	"github.com/uptrace/bun/dialect/pgdialect"
 
+	"github.com/formancehq/go-libs/v5/pkg/authn/jwt"
 	"github.com/formancehq/go-libs/v5/pkg/storage/migrations"
 
 	ledger "github.com/formancehq/ledger/internal"
+	"github.com/formancehq/ledger/internal/api"
+	"github.com/formancehq/ledger/internal/api/bulking"
 	ledgercontroller "github.com/formancehq/ledger/internal/controller/ledger"
 	systemcontroller "github.com/formancehq/ledger/internal/controller/system"
 	"github.com/formancehq/ledger/internal/storage/bucket"
@@ -111,4 +115,10 @@ func (e *Env) Ledger(ctx context.Context, name string) (ledgercontroller.Control
 		return nil, fmt.Errorf("GetLedgerController(%s): %w", name, err)
 	}
 	return c, nil
+}
+
+// Router builds the real HTTP API (v1 and v2 routers, recover middleware included) over this deployment.
+func (e *Env) Router(opts ...api.RouterOption) http.Handler {
+	all := append([]api.RouterOption{api.WithBulkerFactory(bulking.NewDefaultBulkerFactory(bulking.WithParallelism(4)))}, opts...)
+	return api.NewRouter(e.System, jwt.NewNoAuth(), nil, "verif", false, all...)
 }
